@@ -593,7 +593,7 @@ def gen_nallist(rng, tier):
         for m in (1, 2, 4):
             cfg = base_cfg('h264', 'none')
             cfg['facets'] = F
-            d = SC4 + (SPS_B[:n]) + SC3 + (PPS_A[:m]) + SC4 + [0x65, 0x88, 0x84]
+            d = SC4 + ([0x67, 0x42, 0xc0, 0x1e, 0x95, 0xa8][:n]) + SC3 + (PPS_A[:m]) + SC4 + [0x65, 0x88, 0x84]   # no trailing zero: it would join the next start code
             out.append({'cfg': cfg, 'calls': [{'op': 'wv', 'pts': fin(0), 'data': d, 'key': True}, {'op': 'fin', 'how': 'in_place_stats'}]})
     for n in (1, 2, 3, 4, 5, 13, 14, 15, 16, len(HSPS)):
         for m in (1, 2, 3):
